@@ -14,7 +14,7 @@
 (4) Damage sweep: single bit flips over the checksummed bytes of the undo file (this module's own python reader of the
     format says which bytes those are): plain e2undo must exit non-zero with zero write-class calls on the device;
     -n never writes."""
-import os, sys, json, random, shutil, subprocess, time, struct, hashlib, ctypes, concurrent.futures as cf
+import os, sys, re, json, random, shutil, subprocess, time, struct, hashlib, ctypes, concurrent.futures as cf
 from common import VERIF, fast_tmp, seed, die_broken, NPROC, tool_env, run as crun
 import build, tlc as T, tracecheck
 from evidence import Evidence, Verdict
@@ -179,12 +179,65 @@ def model_check(ev, tier, work, vd):
 
 
 # ---------------------------------------------------------------------------------------------- (2) API level
+# the constants of the API-level universe (granules of 1 KiB): undo block sizes, channel block sizes, filesystem offsets as in
+# MC_* below, and device sizes of every residue modulo the largest undo block size (a device whose length is not a multiple of
+# the undo block size ends in a partial undo block, saved as a key with a short last block)
+API_TDB = (1, 2, 4)
+API_BS = (1, 2, 4)
+API_SIZES = (24, 25, 26, 27, 40, 42)
+
+
+def directed_api():
+    """The part of the universe that is enumerated, not sampled: for every element of the boundary catalogue of
+    spec/Trace_UndoIo.tla (Catalogue) the histories that reach it, over the constants above.  Which elements a history really
+    reaches is decided by TLC (CAT lines); the check does not report 'held' unless every element was reached."""
+    out = []
+    fin = [("e2undo", "-n"), ("e2undo", "-")]
+    # chains over a device that ends in a partial undo block: run 1 writes into the partial block, run 2 appends behind it
+    # and writes into the partial block again, run 3 appends once more
+    for n in API_SIZES:
+        for tdb in API_TDB:
+            r = n % tdb
+            if r == 0:
+                continue
+            for bs in API_BS:
+                tails = []
+                if (n // bs) * bs > n - r:                    # the last whole channel block reaches into the partial undo block
+                    tails.append("wblk %d 1" % (n // bs - 1))
+                tails.append("wbyte %d %d" % ((n - r) * G, r * G))
+                tails.append("wblk %d %d" % (((n - r) * G) // (bs * G), -(r * G)) if ((n - r) % bs == 0) else None)
+                for tail in [t for t in tails if t]:
+                    for runs in (2, 3):
+                        cmds = ["open 0 %d" % (tdb * G), "blk %d" % (bs * G), "wblk 0 1", tail, "close 1",
+                                "open 0 0", "blk %d" % (bs * G), "wblk %d 1" % (8 // bs), tail, "wblk %d 1" % (12 // bs), "close 1"]
+                        if runs == 3:
+                            cmds += ["open 0 0", "blk %d" % (bs * G), tail, "wblk %d 2" % (16 // bs), "close %d" % (0 if bs == 2 else 1)]
+                        out.append((n, cmds, list(fin)))
+    # chains over a file whose last key block is exactly full / one short of full / one over (63 keys per 1 KiB key block)
+    for cnt in (62, 63, 64):
+        blocks = list(range(2, 2 + 2 * cnt, 2))
+        cmds = ["open 0 0", "blk %d" % G] + ["wblk %d 1" % b for b in blocks] + ["close 1",
+                "open 0 0", "blk %d" % G, "wblk 3 1", "wblk 2 1", "wblk 5 1", "close 1"]
+        out.append((160, cmds, list(fin)))
+    # one history per remaining catalogue element
+    out.append((24, ["open 0 0", "blk %d" % G, "wblk 4 2", "wblk 4 1", "wblk 6 3", "close 1"], list(fin)))                 # first write wins, extension
+    out.append((24, ["open 0 0", "blk %d" % G, "wblk 22 4", "wblk 27 2", "wbyte %d %d" % (30 * G, G), "close 1"], list(fin)))   # past the end, refused
+    out.append((24, ["open 0 %d" % (2 * G), "blk %d" % (4 * G), "wblk 1 1", "blk %d" % G, "wblk 9 1", "close 1"], list(fin)))     # units
+    for off in (1, 3):
+        out.append((24, ["open %d 0" % (off * G), "blk %d" % (2 * G), "wblk 2 2", "close 1", "open %d 0" % (off * G)], list(fin)))
+    out.append((24, ["open 0 0", "blk %d" % G, "wblk 4 2", "close 0"], list(fin)))                                           # unfinished
+    out.append((24, ["open 0 0", "blk %d" % G, "wblk 4 2", "close 1"], [("tamper",), ("e2undo", "-n"), ("e2undo", "-")]))
+    out.append((24, ["open 0 0", "blk %d" % G, "wblk 4 2", "close 1"],
+                [("flip", "key", 0, 77), ("e2undo", "-"), ("unflip",), ("flip", "data", 0, 5), ("e2undo", "-n"), ("e2undo", "-"), ("unflip",), ("e2undo", "-")]))
+    return out
+
+
 def gen_api(rng, big=False):
     """one behaviour: list of driver commands (after the reset line) and the device size in granules"""
     if big:
         n = 160
     else:
-        n = rng.choice([24, 24, 40])
+        n = rng.choice(API_SIZES)
     cmds = []
     off = rng.choice([0, 0, 0, 0, 1, 3, 5]) * G if not big else 0
     nruns = rng.choice([1, 1, 2, 3]) if off == 0 else 1
@@ -305,59 +358,112 @@ def run_driver(drv, b, script_lines, work, tag):
     return out, p.returncode, p.stderr.decode("utf8", "replace")[-600:]
 
 
-def trace_cfg(work, n, literal=(), invariants=None):
-    """literal = names of Dev* constants switched on: the trace is then only checked to be a behaviour of the literal
-    (pinned-tree) model -- the property invariants are not listed, the deviation is what breaks them."""
-    if invariants is None:
-        invariants = not literal
-    cfg = os.path.join(work, "Trace_UndoIo_%d%s%s.cfg" % (n, "".join("_" + d for d in literal), "_inv" if invariants else ""))
+HARD_INVS = ["PropReport", "R1", "R2", "Layout", "AppendPos", "QuietOk"]
+
+
+def trace_cfg(work, n, literal=()):
+    """cfg of the conformance model: UndoIo with the Dev* constants in `literal` switched on.  Only the invariants that hold
+    with or without the deviations are listed (a failure stops TLC: VIOLATION); the property invariants U1-U3 are evaluated by
+    Trace_UndoIo after every line and reported as PROPFAIL lines, so that TLC goes on matching the rest of the history."""
+    cfg = os.path.join(work, "Trace_UndoIo_%d%s.cfg" % (n, "".join("_" + d for d in literal)))
     consts = dict(N=n, MaxLen=n + 8, TdbSizes="{1}", BlkSizes="{1}", Offsets="{0}", KpbPerG=64, MaxExt=512, MaxOps=1000000,
                   MaxRuns=1000000, MaxSpan=1)
     consts.update(DEVS)
     for d in literal:
         consts[d] = "TRUE"
-    T.write_cfg(cfg, spec="TraceSpec", constants=consts, invariants=["U1", "U2", "U3", "R1", "R2", "Layout"] if invariants else [],
-                postcondition="TraceAccepted")
+    T.write_cfg(cfg, spec="TraceSpec", constants=consts, invariants=HARD_INVS, postcondition="TraceAccepted")
     return cfg
 
 
 # Deviations of the pinned tree that are NOT repaired (their repair changes what tests/u_mke2fs_opt_offset documents, so it
-# cannot be a fix: commit): known findings.  A history the repaired specification rejects is attributed to a deviation iff it
-# is, line by line, a behaviour of the specification with exactly that deviation switched on.
-KNOWN_DEVS = (("DevAbsTiling",), ("DevChanUnits",), ("DevAbsTiling", "DevChanUnits"))
+# cannot be a fix: commit): known findings.  The conformance model has both switched on.  EVERY line of EVERY history must be
+# a step of that model; a history in which a property invariant fails is the known finding showing only if (TLC decides)
+# the model explained every line of it and a deviation was active on some line (Trace_UndoIo!QuietOk).
 CONF_DEVS = ("DevAbsTiling", "DevChanUnits")
+API_MOD = os.path.join(SPEC, "Trace_UndoIo.tla")
 
 
-def recording_part(trace):
-    """lines up to (not including) the first e2undo / damage line: the part of a history in which the undo file is written"""
-    for i, ln in enumerate(trace):
-        if ln.startswith(('{"e":"e2undo"', '{"e":"flip"', '{"e":"unflip"', '{"e":"tamper"')):
-            return trace[:i]
-    return trace
+def _api_chunk(args):
+    cfg, path, nlines = args
+    r = T.tlc(API_MOD, cfg, workers=1, timeout=1500, env={"TRACE": path}, xmx="3g")
+    o = r.out
+    accepted = (r.rc == 0 and r.violated is None and r.error is None)
+    rejected = bool(re.search(r"postcondition|Invariant \S+ is violated", o, re.I)) and not re.search(
+        r"Error evaluating|evaluating the expression|was not in the domain|Attempted to", o)
+    res = dict(path=path, accepted=accepted, broken=None, inv=None, fail_line=None, distinct=r.distinct, generated=r.generated, tail=o[-2500:])
+    if not accepted and not rejected:
+        res["broken"] = r.error or "TLC evaluation error"
+        return res
+    res["propfail"] = sorted({(int(a), b, tuple(sorted(re.findall(r'"(\w+)"', c)))) for a, b, c in
+                              re.findall(r'<<"PROPFAIL", (\d+), "(\w+)", \{([^}]*)\}>>', o)})
+    res["cat"] = set(re.findall(r'<<"CAT", "(\w+)">>', o))
+    m = re.search(r'<<"CATALOGUE", \{([^}]*)\}>>', o)
+    res["catalogue"] = set(re.findall(r'"(\w+)"', m.group(1))) if m else set()
+    if not accepted:
+        if r.violated and r.violated != "POSTCONDITION":
+            # the error trace ends in the state behind the offending line: state k + 1 is the state after line k (1-based)
+            st = [int(x) for x in re.findall(r"^State (\d+):", o, re.M)]
+            res["inv"] = r.violated
+            res["fail_line"] = (max(st) - 2) if st else 0
+        else:
+            m = re.search(r"The depth of the complete state graph search is (\d+)", o)
+            res["fail_line"] = (int(m.group(1)) - 1) if m else 0          # number of lines matched = index of the first unmatched one
+    return res
 
 
-def attribute_api_batch(failing, traces, n, work):
-    """failing: [(behaviour index, line)] = histories the conformance model (both unrepaired deviations on) explains line by
-    line but in which a property invariant fails.  With the deviations off the model satisfies the invariants in every behaviour
-    (model_check), so such a failure is a deviation showing; it is named after the smallest combination whose literal model
-    still explains the recording part of the history."""
-    cand = [(bi, recording_part(traces[bi])) for bi, k in failing]
-    out = {}
-    for devs in KNOWN_DEVS[:-1]:
-        todo = [(bi, rec) for bi, rec in cand if bi not in out]
-        if not todo:
-            break
-        sub = os.path.join(work, "attr_" + "_".join(devs)); os.makedirs(sub, exist_ok=True)
-        res = tracecheck.validate([rec for _, rec in todo], os.path.join(SPEC, "Trace_UndoIo.tla"), trace_cfg(work, n, devs, invariants=False), sub,
-                                  chunk_lines=1, timeout=600, jobs=JOBS)
-        if res["broken"]:
-            die_broken("TLC failed while attributing an API history to a known deviation: %s" % res["broken"][0]["error"])
-        rejected = {f["behaviour"] for f in res["failures"]}
-        for j, (bi, rec) in enumerate(todo):
-            if j not in rejected:
-                out[bi] = devs
-    for bi, rec in cand:
-        out.setdefault(bi, KNOWN_DEVS[-1])
+def api_validate(tbs, cfg, workdir, chunk_lines):
+    """tbs: behaviours (lists of lines).  Returns dict(failures=[(behaviour, line, inv or None, tail)], propfail={behaviour:
+    [(line, inv, devs)]}, cat, catalogue, distinct, generated).  A chunk that stops at a failing behaviour is continued with
+    the behaviours behind it."""
+    chunks, cur, curlen = [], [], 0
+    for bi, t in enumerate(tbs):
+        if cur and curlen + len(t) > chunk_lines:
+            chunks.append(cur); cur = []; curlen = 0
+        cur.append(bi); curlen += len(t)
+    if cur:
+        chunks.append(cur)
+    out = dict(failures=[], propfail={}, cat=set(), catalogue=set(), distinct=0, generated=0)
+    rnd = 0
+    while chunks:
+        tasks = []
+        for ci, chk in enumerate(chunks):
+            pth = os.path.join(workdir, "chunk_r%d_%04d.ndjson" % (rnd, ci))
+            with open(pth, "w") as f:
+                for bi in chk:
+                    f.write("\n".join(tbs[bi]) + "\n")
+            tasks.append((cfg, pth, sum(len(tbs[bi]) for bi in chk)))
+        with cf.ThreadPoolExecutor(max_workers=JOBS) as ex:
+            res = list(ex.map(_api_chunk, tasks))
+        nxt = []
+        for chk, r in zip(chunks, res):
+            if r["broken"]:
+                die_broken("TLC failed on an API trace chunk: %s\n%s" % (r["broken"], r["tail"][-1500:]))
+            out["distinct"] += r["distinct"]; out["generated"] += r["generated"]
+            out["cat"] |= r["cat"]; out["catalogue"] |= r["catalogue"]
+            starts = []; pos = 0
+            for bi in chk:
+                starts.append(pos); pos += len(tbs[bi])
+
+            def locate(line0):
+                for j in range(len(chk) - 1, -1, -1):
+                    if line0 >= starts[j]:
+                        return j, line0 - starts[j]
+                return 0, 0
+            stop = None
+            if not r["accepted"]:
+                j, k = locate(min(r["fail_line"], pos - 1))
+                stop = j
+                out["failures"].append((chk[j], k, r["inv"], r["tail"]))
+                if j + 1 < len(chk):
+                    nxt.append(chk[j + 1:])
+            for ln, inv, devs in r["propfail"]:
+                j, k = locate(ln - 1)
+                if stop is not None and j > stop:
+                    continue
+                out["propfail"].setdefault(chk[j], [])
+                if (k, inv, devs) not in out["propfail"][chk[j]]:
+                    out["propfail"][chk[j]].append((k, inv, devs))
+        chunks = nxt; rnd += 1
     return out
 
 
@@ -385,9 +491,10 @@ def api_nontrivial(lines):
 
 
 def api_conformance(ev, vd, tier, work, b, drv, rng):
-    nbeh = 260 if tier == "quick" else 12000
+    nbeh = 300 if tier == "quick" else 12000
     nbig = 6 if tier == "quick" else 120
-    behs = [gen_api(rng) for _ in range(nbeh)] + [gen_api(rng, big=True) for _ in range(nbig)]
+    behs = directed_api() + [gen_api(rng) for _ in range(nbeh)] + [gen_api(rng, big=True) for _ in range(nbig)]
+    ndirected = len(directed_api())
     shards = JOBS
     per = [[] for _ in range(shards)]
     for i, bh in enumerate(behs):
@@ -403,6 +510,7 @@ def api_conformance(ev, vd, tier, work, b, drv, rng):
     with cf.ThreadPoolExecutor(max_workers=shards) as ex:
         outs = list(ex.map(one, range(shards)))
     traces = {}
+    crashed = False
     for si, (out, rc, err) in enumerate(outs):
         tl = open(out).read().splitlines()
         tb = tracecheck.split_behaviours(tl, lambda s: s.startswith('{"e":"reset"'))
@@ -412,53 +520,66 @@ def api_conformance(ev, vd, tier, work, b, drv, rng):
             bi, bh = per[si][min(k, len(per[si]) - 1)]
             vd.violation("crash", "undo_io crashed / aborted during an API history (driver exit %d: %s)" % (rc, err.strip()[-200:]),
                          {"kind": "api", "n": bh[0], "script": api_script("DEV", "UNDO", *bh)})
-            tb = tb[:-1]
+            tb = tb[:-1]; crashed = True
         elif len(tb) != len(per[si]):
             die_broken("instrumentation incomplete: shard %d logged %d of %d behaviours" % (si, len(tb), len(per[si])))
         for (i, bh), t in zip(per[si], tb):
             traces[i] = t
     # validate, grouped by device size (N is a constant of the specification)
-    nfail = 0; nval = 0; tot_lines = 0
+    nfail = 0; nval = 0; tot_lines = 0; nknown = 0
+    cat = set(); catalogue = set()
     for n in sorted({bh[0] for bh in behs}):
         idx = [i for i in sorted(traces) if behs[i][0] == n]
         if not idx:
             continue
-        cfg = trace_cfg(work, n, CONF_DEVS, invariants=True)
+        cfg = trace_cfg(work, n, CONF_DEVS)
         sub = os.path.join(work, "tv%d" % n); os.makedirs(sub, exist_ok=True)
         tbs = [traces[i] for i in idx]
         tot_lines += sum(len(t) for t in tbs)
-        res = tracecheck.validate(tbs, os.path.join(SPEC, "Trace_UndoIo.tla"), cfg, sub, chunk_lines=700 if n < 100 else 400,
-                                  timeout=1200, jobs=JOBS)
-        if res["broken"]:
-            die_broken("TLC failed on an API trace chunk: %s\n%s" % (res["broken"][0]["error"], res["broken"][0]["out_tail"][-1500:]))
+        res = api_validate(tbs, cfg, sub, chunk_lines=450 if n < 100 else 300)
         ev.cov["states"] += res["distinct"]; ev.cov["transitions"] += res["generated"]
+        cat |= res["cat"]; catalogue |= res["catalogue"]
         nval += len(tbs)
-        # the conformance model is the specification WITH the unrepaired deviations on (what the tree does): a history it
-        # rejects is a VIOLATION; a history it explains but in which a property invariant fails is the known finding showing
-        failing = [(idx[f["behaviour"]], f["line_in_behaviour"]) for f in res["failures"]]
-        invfail = [(idx[f["behaviour"]], f["line_in_behaviour"]) for f in res["failures"] if f["violated"]]
-        known = attribute_api_batch(invfail, traces, n, sub)
-        for bi, devs in known.items():
-            nfail += 1
-            for d in devs:
-                vd.violation(d, "API history follows the literal model with %s" % "+".join(devs), {"kind": "api", "n": behs[bi][0], "script": api_script("DEV", "UNDO", *behs[bi])})
-            ev.cov["api_histories_taking_known_deviation"] = ev.cov.get("api_histories_taking_known_deviation", 0) + 1
-        for bi, _ in failing:
-            if bi in known:
+        failed = set()
+        for j, k, inv, tail in res["failures"]:
+            bi = idx[j]
+            # re-run the history alone before reporting
+            rr = api_validate([traces[bi]], cfg, sub, chunk_lines=10 ** 9)
+            if not rr["failures"]:
                 continue
-            rej, matched, inv, tail, _ = tracecheck.confirm(traces[bi], os.path.join(SPEC, "Trace_UndoIo.tla"), cfg, sub)
-            if not rej:
-                continue
-            nfail += 1
-            k = matched if matched is not None else 0
+            _, k, inv, tail = rr["failures"][0]
+            nfail += 1; failed.add(bi)
             line = traces[bi][k] if k < len(traces[bi]) else "(end)"
-            what = ("invariant %s violated" % inv) if inv else "the real code left the specification"
+            if inv == "QuietOk":
+                pf = [x for x in rr["propfail"].get(0, [])]
+                what = "property invariant %s fails although no known deviation is active" % "/".join(sorted({x[1] for x in pf}) or ["?"])
+            elif inv:
+                what = "invariant %s violated" % inv
+            else:
+                what = "the real code left the specification (the literal model, known deviations included, does not explain this line)"
             vd.violation("api:%s" % (inv or "rejected"), "%s at line %d of an API history: %s" % (what, k, line[:240]),
                          {"kind": "api", "n": behs[bi][0], "script": api_script("DEV", "UNDO", *behs[bi]), "trace": traces[bi],
                           "first_unmatched_line": k, "tlc_tail": tail[-1500:]})
-    ev.cov["api_behaviours"] = nval; ev.cov["api_trace_lines"] = tot_lines
+        # explained line by line, a deviation active, a property invariant fails: the known finding showing
+        for j, pfs in res["propfail"].items():
+            bi = idx[j]
+            if bi in failed:
+                continue
+            devs = sorted({d for _, _, ds in pfs for d in ds})
+            if not devs:
+                continue        # QuietOk has reported it
+            nknown += 1
+            for d in devs:
+                vd.violation(d, "API history follows the literal model with %s (%s fails)" % ("+".join(devs), "/".join(sorted({x[1] for x in pfs}))),
+                             {"kind": "api", "n": behs[bi][0], "script": api_script("DEV", "UNDO", *behs[bi])})
+    ev.cov["api_histories_taking_known_deviation"] = nknown
+    ev.cov["api_behaviours"] = nval; ev.cov["api_trace_lines"] = tot_lines; ev.cov["api_directed_histories"] = ndirected
     ev.cov["traces_validated_against_impl"] += nval - nfail
     ev.cov["evaluations"] += nval
+    ev.cov["api_catalogue"] = {c: (c in cat) for c in sorted(catalogue)}
+    missing = sorted(catalogue - cat)
+    if (missing or not catalogue) and not nfail and not crashed:
+        die_broken("the API-level universe does not reach the boundary catalogue element(s) %s of Trace_UndoIo" % (", ".join(missing) or "(no catalogue reported)"))
     kinds = [0, 0, 0, 0]
     for i, t in traces.items():
         nt, flags = api_nontrivial(t)
@@ -1224,11 +1345,16 @@ def replay(path):
             tl = open(out).read().splitlines()
             if rc != 0:
                 print("driver exit %d: %s" % (rc, err)); print("VIOLATION property=%s replay=%s" % (PID, path)); return 1
-            cfg = trace_cfg(work, rp["n"], CONF_DEVS, invariants=True)
-            rej, matched, inv, tail, _ = tracecheck.confirm(tl, os.path.join(SPEC, "Trace_UndoIo.tla"), cfg, work)
-            if rej:
-                print("first unmatched line %s (%s): %s" % (matched, inv, tl[matched][:300] if matched is not None and matched < len(tl) else "?"))
+            cfg = trace_cfg(work, rp["n"], CONF_DEVS)
+            rr = api_validate([tl], cfg, work, chunk_lines=10 ** 9)
+            for k, inv, devs in rr["propfail"].get(0, []):
+                print("line %d: property invariant %s fails in the literal model (active deviations: %s)" % (k, inv, ", ".join(devs) or "none"))
+            if rr["failures"]:
+                _, k, inv, tail = rr["failures"][0]
+                print("first unmatched line %s (%s): %s" % (k, inv, tl[k][:300] if k < len(tl) else "?"))
                 print("VIOLATION property=%s replay=%s" % (PID, path)); return 1
+            if rr["propfail"].get(0):
+                print("KNOWN-FINDING: property=%s the history is explained line by line by the literal model; the deviation breaks the property" % PID)
             print("replay accepted"); return 0
         if rp.get("kind") == "tool":
             sc = rp["scenario"]
